@@ -137,3 +137,44 @@ def node_binary(b):
 def run(ctx, tool, args, variant="plain", stdin=None, timeout=60, fast=True):
     rc, out, err = toolrun.run_tool(ctx, variant, tool, list(args), timeout=timeout, stdin=stdin, fast=fast)
     return rc, out, err
+
+
+# ------------------------------------------------------------------ mixed packs for the report-level properties (C08, C10-C13)
+def mixed_packs(quick, size=24):
+    """Packs mixing changed and removed interfaces (comparing them backwards also yields added ones)."""
+    specs = all_specs(quick)
+    edges = edge_list(specs, "breaking")
+    if quick:
+        edges = edges[::5]
+    # interleave so that every pack holds removals as well as changes
+    rem = [e for e in edges if e[1].startswith("remove-function") or e[1].startswith("remove-variable")]
+    chg = [e for e in edges if e not in rem]
+    packs = []
+    ri = 0
+    for c in chunks(chg, size - 4):
+        extra = rem[ri:ri + 4]
+        ri += 4
+        packs.append(c + extra)
+    return packs
+
+
+def summary_consistency(rep):
+    """List of (class, text) inconsistencies between the summary counters and the listed entries."""
+    probs = []
+    pairs = [("functions", "removed", "removed_functions"), ("functions", "changed", "changed_functions"), ("functions", "added", "added_functions"),
+             ("variables", "removed", "removed_variables"), ("variables", "changed", "changed_variables"), ("variables", "added", "added_variables"),
+             ("function_symbols", "removed", "removed_function_symbols"), ("function_symbols", "added", "added_function_symbols"),
+             ("variable_symbols", "removed", "removed_variable_symbols"), ("variable_symbols", "added", "added_variable_symbols")]
+    for sk, field, sec in pairs:
+        if sk not in rep.summary:
+            continue
+        net = rep.summary[sk][field]
+        listed = len(rep.entries(sec))
+        hdr = rep.sections.get(sec, {"count": 0})["count"]
+        if net != listed:
+            probs.append(("%s-%s" % (sk, field), "summary says %d %s %s, %d entries are listed" % (net, field, sk, listed)))
+        if hdr != listed:
+            probs.append(("%s-%s-header" % (sk, field), "section header says %d, %d entries are listed" % (hdr, listed)))
+        if net > 10 ** 6 or rep.summary[sk].get(field + "_filtered", 0) > 10 ** 6:
+            probs.append(("%s-%s-wrap" % (sk, field), "absurd count %d (filtered %d)" % (net, rep.summary[sk].get(field + "_filtered", 0))))
+    return probs
